@@ -248,6 +248,30 @@ Proof.
   rewrite split_join by assumption. reflexivity.
 Qed.
 
+(* ---------------------------------------------------------------- length of a row (one buffered write + flush) *)
+Lemma length_app_s a b : String.length (a ++ b) = String.length a + String.length b.
+Proof. induction a as [|x a IH]; cbn; [reflexivity | rewrite IH; reflexivity]. Qed.
+
+Lemma lstrip_by_length f s : String.length (lstrip_by f s) <= String.length s.
+Proof. induction s as [|x s IH]; cbn; [lia|]. destruct (f x); cbn; lia. Qed.
+
+Lemma rstrip_by_length f s : String.length (rstrip_by f s) <= String.length s.
+Proof.
+  induction s as [|x s IH]; cbn [rstrip_by]; [cbn; lia|].
+  destruct (rstrip_by f s) eqn:E; [destruct (f x); cbn; lia | cbn in *; lia].
+Qed.
+
+Lemma strip_by_length f s : String.length (strip_by f s) <= String.length s.
+Proof. unfold strip_by. eapply Nat.le_trans; [apply rstrip_by_length | apply lstrip_by_length]. Qed.
+
+Lemma assemble_row_length toks etext :
+  String.length (assemble_row toks etext) <= String.length (join_suffix ", " toks) + String.length etext + 3.
+Proof.
+  unfold assemble_row, strip_char. rewrite length_app_s. cbn [String.length].
+  eapply Nat.le_trans; [apply Nat.add_le_mono_r; eapply Nat.le_trans; [apply strip_by_length | apply strip_by_length]|].
+  rewrite !length_app_s. cbn [String.length]. lia.
+Qed.
+
 (* ---------------------------------------------------------------- input file of an iteration *)
 Lemma split_char_app_sep c a b : split_char c (a ++ String c b) = (split_char c a ++ split_char c b)%list.
 Proof.
